@@ -104,6 +104,7 @@ theorem services_leaves : Leaves (keeps ServicesInv) where
   trans := fun _ _ _ h1 h2 h => h2 (h1 h)
   gate := fun _ _ _ _ _ h => h
   forget := fun _ _ h => h
+  expire := fun _ h => h
   acquire := by
     intro t c n flags _ h
     unfold acquire
